@@ -1300,3 +1300,56 @@ def gm_from_dict_conditional(ctx):
         if why:
             ctx.violation(f'oracle:conditional-law:from_dict:{kind}', why, {'kind': kind, 'repro': ('from vf.extra_oracles2 import gm_from_dict_conditional_replay\n'
                                                                                                      f'why = gm_from_dict_conditional_replay({kind!r})\nprint(why)\nassert why is None\n')})
+
+
+# ======================================================================================================================
+# round 5 - C17: the likelihood of a vine REBUILT by from_dict equals the fitted vine's (tables whose likelihood is free of the F10b reads:
+# decided per table by evaluating under two np.empty fills)
+# ======================================================================================================================
+def vine_copy_likelihood_replay(vtype):
+    import copulas.multivariate.tree as T
+    import copulas.multivariate.vine as V
+    from copulas.multivariate import Multivariate, VineCopula
+    from . import vinestruct as VS
+    checked = 0
+    for seed in range(10):
+        X = VS.make_table(300 + seed, 4, 70, ['gauss', 'strong', 'gauss'][seed % 3])
+        with np.errstate(all='ignore'):
+            v = VineCopula(vtype, random_state=2)
+            try:
+                v.fit(X, truncated=3)
+            except Exception:
+                continue
+            u = np.array([[0.21, 0.47, 0.66, 0.83]])
+            vals = []
+            for fill in (float('nan'), 0.123):
+                saved = (T.np, V.np)
+                T.np = V.np = VS._NpProxy(fill)
+                try:
+                    vals.append(float(v.get_likelihood(u)))
+                except Exception:
+                    vals.append(None)
+                finally:
+                    T.np, V.np = saved
+            if vals[0] is None or vals[0] != vals[1] or not np.isfinite(vals[0]):
+                continue                          # this table's likelihood reads unwritten cells (F10b, known): no reference value exists
+            checked += 1
+            for how, mk in (('VineCopula.from_dict', lambda: VineCopula.from_dict(v.to_dict())), ('Multivariate.from_dict', lambda: Multivariate.from_dict(v.to_dict()))):
+                c = mk()
+                got = float(c.get_likelihood(u))
+                if not (got == vals[0] or abs(got - vals[0]) <= 1e-9 * (1 + abs(vals[0]))):
+                    return (f"VineCopula({vtype!r}) on make_table({300 + seed}, 4, 70): get_likelihood(u) = {vals[0]!r}, the copy rebuilt by {how} answers {got!r}")
+    return None if checked or vtype != 'center' else 'oracle design: no table with a clean likelihood'
+
+
+def vine_copy_likelihood(ctx):
+    for vt in ('center', 'direct', 'regular'):
+        ctx.case(('vine-copy-likelihood', vt), {'vine': vt})
+        try:
+            why = vine_copy_likelihood_replay(vt)
+        except Exception as ex:
+            why = f'oracle raised {type(ex).__name__}: {str(ex)[:160]}'
+        ctx.obligation(f'oracle:vine-copy-likelihood:{vt}', why is None, 'correspondence', why or '')
+        if why:
+            ctx.violation(f'search:vine-copy-likelihood:{vt}', why, {'vine': vt, 'repro': ('from vf.extra_oracles2 import vine_copy_likelihood_replay\n'
+                                                                                          f'why = vine_copy_likelihood_replay({vt!r})\nprint(why)\nassert why is None\n')})
